@@ -11,8 +11,9 @@ pub enum Taint {
     Clean,
     /// never written register / stack byte, r1-r5 after a helper call
     Undef,
-    /// stack_top + k, tracked exactly (value holds the concrete address)
-    StackRel,
+    /// exact pointer into region #n (0 = stack, 1 = packet, 2 = metadata buffer, 3+ = other):
+    /// base + k tracked exactly (value holds the concrete address)
+    Rel(u8),
     /// some other function of a raw stack address
     AddrDep,
 }
@@ -44,11 +45,29 @@ pub struct Region {
     pub data: Vec<u8>,
     /// per byte: 0 clean, 1 undef, 2 addr-dependent
     pub taint: Vec<u8>,
+    /// 8-byte slots currently holding an exact pointer: (offset, region id pointed into)
+    pub ptr_slots: Vec<(usize, u8)>,
+    /// id used in Taint::Rel for pointers INTO this region
+    pub id: u8,
 }
 
 impl Region {
     pub fn new(name: &'static str, base: u64, data: &[u8]) -> Region {
-        Region { name, base, data: data.to_vec(), taint: vec![0; data.len()] }
+        let id = match name {
+            "stack" => 0,
+            "pkt" => 1,
+            "mbuff" | "fixedmbuff" => 2,
+            _ => 3,
+        };
+        Region { name, base, data: data.to_vec(), taint: vec![0; data.len()], ptr_slots: Vec::new(), id }
+    }
+    /// mark the 8 bytes at `off` as holding an exact pointer into region `into`
+    pub fn set_ptr_slot(&mut self, off: usize, into: u8) {
+        for k in 0..8 {
+            self.taint[off + k] = 2;
+        }
+        self.ptr_slots.retain(|(o, _)| *o != off);
+        self.ptr_slots.push((off, into));
     }
 }
 
@@ -149,10 +168,19 @@ impl<'a> RefVm<'a> {
         // behaviour: registers and stack start as zeros and helper calls leave r1-r5 alone.
         let undef = V { v: 0, t: if s.alt_zext_unsigned_imm { Taint::Clean } else { Taint::Undef } };
         let mut reg = [undef; 11];
-        reg[1] = V::clean(s.r1);
         let stack_top = s.stack_addr.wrapping_add(512);
-        reg[10] = V { v: stack_top, t: Taint::StackRel };
+        reg[10] = V { v: stack_top, t: Taint::Rel(0) };
         let mut regions = s.regions;
+        // r1 is a raw address as well: an exact pointer into the region it points to
+        reg[1] = V::clean(s.r1);
+        if s.r1 != 0 {
+            for r in &regions {
+                if r.base <= s.r1 && s.r1 <= r.base + r.data.len() as u64 {
+                    reg[1].t = Taint::Rel(r.id);
+                    break;
+                }
+            }
+        }
         let mut st = Region::new("stack", s.stack_addr, &[0u8; 512]);
         st.taint = vec![if s.alt_zext_unsigned_imm { 0 } else { 1 }; 512];
         regions.push(st);
@@ -198,6 +226,12 @@ impl<'a> RefVm<'a> {
     fn load(&self, addr: u64, w: u8) -> Option<V> {
         let (ri, o) = self.find(addr, w as u64)?;
         let r = &self.regions[ri];
+        if w == 8 {
+            if let Some((_, into)) = r.ptr_slots.iter().find(|(po, _)| *po == o) {
+                let v = u64::from_le_bytes(r.data[o..o + 8].try_into().unwrap());
+                return Some(V { v, t: Taint::Rel(*into) });
+            }
+        }
         let mut v = 0u64;
         let mut t = Taint::Clean;
         for k in 0..w as usize {
@@ -225,6 +259,13 @@ impl<'a> RefVm<'a> {
         for k in 0..w as usize {
             r.data[o + k] = (val.v >> (8 * k)) as u8;
             r.taint[o + k] = tb;
+        }
+        // any overlapping pointer slot is gone; a full 8-byte store of an exact pointer makes one
+        r.ptr_slots.retain(|(po, _)| po + 8 <= o || o + w as usize <= *po);
+        if w == 8 {
+            if let Taint::Rel(into) = val.t {
+                r.ptr_slots.push((o, into));
+            }
         }
         true
     }
@@ -298,7 +339,7 @@ impl<'a> RefVm<'a> {
                 }
                 Shape::LdReg => {
                     let base = self.reg[s];
-                    if !matches!(base.t, Taint::Clean | Taint::StackRel) {
+                    if !matches!(base.t, Taint::Clean | Taint::Rel(_)) {
                         return Outcome::OutOfClaim("load address tainted");
                     }
                     let addr = base.v.wrapping_add(ins.off as i64 as u64);
@@ -309,20 +350,18 @@ impl<'a> RefVm<'a> {
                 }
                 Shape::StImm | Shape::StReg => {
                     let base = self.reg[d];
-                    if !matches!(base.t, Taint::Clean | Taint::StackRel) {
+                    if !matches!(base.t, Taint::Clean | Taint::Rel(_)) {
                         return Outcome::OutOfClaim("store address tainted");
                     }
                     let addr = base.v.wrapping_add(ins.off as i64 as u64);
                     let val = if info.shape == Shape::StImm { V::clean(ins.imm as i64 as u64) } else { self.reg[s] };
-                    // a partially stored pointer is no longer an exact stack-relative value
-                    let val = if val.t == Taint::StackRel { V { v: val.v, t: Taint::AddrDep } } else { val };
                     if !self.store(addr, info.width, val) {
                         return Outcome::Oob { pc: this_pc, addr, width: info.width, store: true };
                     }
                 }
                 Shape::Xadd => {
                     let base = self.reg[d];
-                    if !matches!(base.t, Taint::Clean | Taint::StackRel) {
+                    if !matches!(base.t, Taint::Clean | Taint::Rel(_)) {
                         return Outcome::OutOfClaim("xadd address tainted");
                     }
                     let addr = base.v.wrapping_add(ins.off as i64 as u64);
@@ -334,7 +373,7 @@ impl<'a> RefVm<'a> {
                     }
                     let add = self.reg[s];
                     let mask = if info.width == 4 { 0xffff_ffffu64 } else { u64::MAX };
-                    let nv = V { v: old.v.wrapping_add(add.v) & mask, t: join(old.t, if add.t == Taint::StackRel { Taint::AddrDep } else { add.t }) };
+                    let nv = V { v: old.v.wrapping_add(add.v) & mask, t: join(old.t, if matches!(add.t, Taint::Rel(_)) { Taint::AddrDep } else { add.t }) };
                     self.store(addr, info.width, nv);
                     self.xadd_done += 1;
                 }
@@ -350,7 +389,10 @@ impl<'a> RefVm<'a> {
                     let a = self.reg[d];
                     let b = if info.shape == Shape::JmpReg { self.reg[s] } else { V::clean(ins.imm as i64 as u64) };
                     // comparing two exact stack-relative values is address independent
-                    let t = if a.t == Taint::StackRel && b.t == Taint::StackRel { Taint::Clean } else { join_cmp(a.t, b.t) };
+                    let t = match (a.t, b.t) {
+                        (Taint::Rel(x), Taint::Rel(y)) if x == y => Taint::Clean,
+                        _ => join_cmp(a.t, b.t),
+                    };
                     if t != Taint::Clean {
                         return Outcome::OutOfClaim(if t == Taint::Undef { "branch on undefined value" } else { "branch on raw address" });
                     }
@@ -500,23 +542,23 @@ pub fn alu(opc: u8, info: OpInfo, a: V, b: V, imm: i32) -> V {
         (11, _) => {
             if info.is64 {
                 b.t
-            } else if b.t == Taint::StackRel {
+            } else if matches!(b.t, Taint::Rel(_)) {
                 Taint::AddrDep
             } else {
                 b.t
             }
         }
         (_, Shape::Unary) | (_, Shape::Endian) => {
-            if a.t == Taint::StackRel { Taint::AddrDep } else { a.t }
+            if matches!(a.t, Taint::Rel(_)) { Taint::AddrDep } else { a.t }
         }
         // 64-bit add/sub keep exact stack-relative pointers
         (0, _) if info.is64 => match (a.t, b.t) {
-            (Taint::StackRel, Taint::Clean) | (Taint::Clean, Taint::StackRel) => Taint::StackRel,
+            (Taint::Rel(r), Taint::Clean) | (Taint::Clean, Taint::Rel(r)) => Taint::Rel(r),
             (x, y) => join(x, y),
         },
         (1, _) if info.is64 => match (a.t, b.t) {
-            (Taint::StackRel, Taint::Clean) => Taint::StackRel,
-            (Taint::StackRel, Taint::StackRel) => Taint::Clean,
+            (Taint::Rel(r), Taint::Clean) => Taint::Rel(r),
+            (Taint::Rel(x), Taint::Rel(y)) if x == y => Taint::Clean,
             (x, y) => join(x, y),
         },
         _ => join(a.t, b.t),
